@@ -25,6 +25,7 @@ from .common import NCPU, PY, VERIF, Timer, child_env, scratch, seed, tier
 
 CONCRETE = {"a": "alpha", "b": "beta", "c": "gamma", "yy": "stale_one", "zz": "stale_two"}
 PROSE = {"alpha": "the first thing", "beta": "how many of them", "gamma": "where to put it", "kwargs": "forwarded on",
+         "size": "the extent of it", "batch_size": "how many at once", "size_limit": "the upper bound on it",
          "width": "the width", "depth": "the depth", "stale_one": "a key passed on", "stale_two": "another key passed on"}
 TYP = {"absent": None, "int": "int", "str": "str", "OptInt": "Optional[int]", "float": "float", "bool": "bool"}
 # C12: defaults that compare equal across types (0 == 0.0 == False, 1 == 1.0 == True) must stay apart within one process
@@ -55,9 +56,13 @@ def typ_token(t):
     return {"int": "int", "str": "str", "Optional[int]": "OptInt", "float": "float", "Optional[dict]": "OptDict"}.get(n, "other:" + n)
 
 
+RELATED = {"a": "size", "b": "batch_size", "c": "size_limit", "yy": "stale_one", "zz": "stale_two"}     # suffix / prefix of a neighbour
+
+
 def decorate(core, rnd, variant, variety=False):
     """core: {"sig": [{n, def}], "doc": [names]} -> scenario dict."""
-    names = [CONCRETE[s["n"]] for s in core["sig"]]
+    conc = RELATED if rnd.random() < 0.3 else CONCRETE
+    names = [conc[s["n"]] for s in core["sig"]]
     has_def = [s["def"] == "d" for s in core["sig"]]
     # keyword-only split: positional defaults must form a suffix; keyword-only parameters are free
     split = rnd.choice([3, 3, 2, 1, 0])
@@ -72,7 +77,7 @@ def decorate(core, rnd, variant, variety=False):
     kwargs = rnd.choice([None, None, "doc", "undoc"])
     doc = []
     for d in core["doc"]:
-        n = CONCRETE[d]
+        n = conc[d]
         p = next((x for x in params if x["n"] == n), None)
         if p is None:          # documented, not a parameter (Merge.tla DocExtras)
             doc.append({"n": n, "typ": rnd.choice(["absent", "int"])})
@@ -82,6 +87,9 @@ def decorate(core, rnd, variant, variety=False):
         doc.append({"n": n, "typ": typ})
         if variety and p["def"] is not None and rnd.random() < 0.6:
             doc[-1]["says"] = repr(p.get("val", DEFVAL[p["def"]]))      # the prose announces the default as well
+            if rnd.random() < 0.3:
+                # ... and a second phrase announces something else further on (whichever wins, it must win in every process)
+                doc[-1]["says"] += ". Default: 7. With the legacy backend it defaults to 3"
     if kwargs == "doc":
         doc.append({"n": "kwargs", "typ": "absent"})
     kind = variant["kind"]
